@@ -98,6 +98,10 @@ func checkC17(c *Ctx) {
 	}
 	c.writerCriticalSpan()
 	c.ringSideOwnership()
+	// the in-flight queues hand QoS 2 publishes on in arrival order: index and unroll order of the ring
+	c.queueIndexRules()
+	c.growRules()
+	c.occupancyByCount()
 	// one processor goroutine per connection, started once, outside any loop
 	ngo := 0
 	inLoop := false
@@ -126,6 +130,7 @@ func checkC17(c *Ctx) {
 
 // writerCriticalSpan: L7 in the ring writer.
 func (c *Ctx) writerCriticalSpan() {
+	c.R.Rule(ruleL7, "a named lock covers a named span on all paths: in the packet writer the per-connection write mutex is held at the ring reservation, at every encode into the ring / scratch buffer, and at the commit (or copying write), so that concurrent deliveries to one connection never interleave inside a packet.")
 	r := c.Roles()
 	fn := r.RingWrite
 	lk := c.Locks()
